@@ -38,6 +38,22 @@ def escapePy (q : Bool) (s : List Char) : List Char :=
 def unescape (s : List Char) : List Char :=
   replace amp ['&'] (replace lt ['<'] (replace gt ['>'] (replace qt ['"'] s)))
 
+/-- recogniser of well-formed escaped text: no raw `<` `>`, and every `&` starts one of
+    the four entities `escape` writes (what any reader of the output relies on).
+    `skip` = characters of the current entity still to be passed over. -/
+def entWf : Nat → List Char → Bool
+  | _, [] => true
+  | k + 1, _ :: cs => entWf k cs
+  | 0, c :: cs =>
+      if c = '&' then
+        if amp.isPrefixOf (c :: cs) then entWf 4 cs
+        else if lt.isPrefixOf (c :: cs) then entWf 3 cs
+        else if gt.isPrefixOf (c :: cs) then entWf 3 cs
+        else if qt.isPrefixOf (c :: cs) then entWf 4 cs
+        else false
+      else if c = '<' ∨ c = '>' then false
+      else entWf 0 cs
+
 /-! ### UTF-8 (bytes as `Nat` < 256) -/
 
 def utf8Char (c : Char) : List Nat :=
